@@ -17,6 +17,10 @@ pub struct Cell {
     pub ka: usize,
     pub b: Ty,
     pub kb: usize,
+    /// expression context of the offending expression ("direct", "paren", "elem", "member", "arg", "index",
+    /// "castop", "binop", "ret", "cond") and statement context of the statement (ty::STMT_CONTEXTS)
+    pub x: String,
+    pub y: String,
 }
 
 impl Cell {
@@ -28,14 +32,17 @@ impl Cell {
             ka: v["ka"].as_u64().unwrap_or(0) as usize,
             b: ty::ty_from_json(&v["b"]),
             kb: v["kb"].as_u64().unwrap_or(0) as usize,
+            x: v["x"].as_str().unwrap_or("direct").to_string(),
+            y: v["y"].as_str().unwrap_or("top").to_string(),
         }
     }
     pub fn to_json(&self) -> Value {
-        json!({"ctx": self.ctx, "op": self.op, "a": self.a, "ka": self.ka, "b": self.b, "kb": self.kb})
+        json!({"ctx": self.ctx, "op": self.op, "a": self.a, "ka": self.ka, "b": self.b, "kb": self.kb, "x": self.x, "y": self.y})
     }
     pub fn key(&self) -> String {
-        format!("{} {} {}/{} {}/{}", self.ctx, if self.op.is_empty() { "-" } else { &self.op }, ty::key(&self.a), self.ka,
-                ty::key(&self.b), self.kb)
+        let base = format!("{} {} {}/{} {}/{}", self.ctx, if self.op.is_empty() { "-" } else { &self.op }, ty::key(&self.a), self.ka,
+                ty::key(&self.b), self.kb);
+        if self.x == "direct" && self.y == "top" { base } else { format!("{} @{}/{}", base, self.x, self.y) }
     }
 }
 
@@ -97,12 +104,86 @@ fn annotated(name: &str, t: &Ty) -> String {
     if ty::declarable(t) { format!("var {}: {}", name, ty::syntax(t)) } else { format!("var {name}") }
 }
 
+fn i32t() -> Ty {
+    vec!["i32".to_string()]
+}
+
+/// The offending expression of an expression-kind cell: (text, type as penne sees it, atomic?).
+/// Calls are made to a `callee` that returns i32 (declared in `top`).
+fn offending_expression(c: &Cell, top: &mut Vec<String>, locals: &mut Vec<String>) -> Option<(String, Ty, bool)> {
+    match c.ctx.as_str() {
+        "bin" => Some((format!("{} {} {}", amp(c.ka, "a"), op_text(&c.op), amp(c.kb, "b")), expr_type(&c.a, c.ka), false)),
+        "un" => Some((format!("{}{}", op_text(&c.op), amp(c.ka, "a")), expr_type(&c.a, c.ka), false)),
+        "as" => Some((format!("{} as {}", amp(c.ka, "a"), ty::syntax(&c.b)), c.b.clone(), false)),
+        "cast" => Some((format!("cast {} as {}", amp(c.ka, "a"), ty::syntax(&c.b)), c.b.clone(), false)),
+        "arg" => {
+            top.push(format!("fn callee(p: {}) -> i32;", ty::syntax(&c.b)));
+            Some((format!("callee({})", amp(c.ka, "a")), i32t(), true))
+        }
+        "arg2" => {
+            locals.push("\tvar x0: i32 = 1i32;".to_string());
+            top.push(format!("fn callee(p0: i32, p: {}) -> i32;", ty::syntax(&c.b)));
+            Some((format!("callee(x0, {})", amp(c.ka, "a")), i32t(), true))
+        }
+        "argn" => {
+            let ps: Vec<String> = (0..c.kb).map(|i| format!("p{i}: i32")).collect();
+            top.push(format!("fn callee({}) -> i32;", ps.join(", ")));
+            locals.push("\tvar x: i32 = 1i32;".to_string());
+            let args: Vec<&str> = (0..c.ka).map(|_| "x").collect();
+            Some((format!("callee({})", args.join(", ")), i32t(), true))
+        }
+        _ => None,
+    }
+}
+
+/// The statement that puts expression `e` of type `te` into expression context `x`.
+fn statement_for(x: &str, e: &str, te: &Ty, atomic: bool, top: &mut Vec<String>, locals: &mut Vec<String>, ret: &mut Option<String>)
+    -> (String, bool) {
+    let pe = if atomic { e.to_string() } else { format!("({e})") };
+    let lit = if ty::is_prim(te) { ty::literal(&te[0], 7) } else { "0".to_string() };
+    match x {
+        "paren" => (format!("{} = ({});", annotated("r", te), e), false),
+        "elem" => {
+            top.push(format!("fn sink_v(v: []{});", ty::syntax(te)));
+            (format!("sink_v([{e}]);"), false)
+        }
+        "member" => {
+            top.push(format!("struct MX {{ m: {} }}", ty::syntax(te)));
+            top.push("fn sink_m(v: MX);".to_string());
+            (format!("sink_m(MX {{ m: {e} }});"), false)
+        }
+        "arg" => {
+            top.push(format!("fn sink_a(v: {});", ty::syntax(te)));
+            (format!("sink_a({e});"), false)
+        }
+        "index" => {
+            locals.push("\tvar ix: [3]i32 = [1i32, 2i32, 3i32];".to_string());
+            (format!("var r: i32 = ix[{e}];"), false)
+        }
+        "castop" => {
+            let target = if te == &vec!["bool".to_string()] { "u8" } else if te == &vec!["i64".to_string()] { "i32" } else { "i64" };
+            (format!("var r: {target} = {pe} as {target};"), false)
+        }
+        "binop" => (format!("{} = {} + {};", annotated("r", te), pe, lit), false),
+        "ret" => {
+            *ret = Some(ty::syntax(te));
+            (format!("return: {e}"), true)
+        }
+        "cond" => {
+            locals.push("\tvar z: i32 = 0i32;".to_string());
+            (format!("if {pe} == {lit} {{ z = 1i32; }}"), false)
+        }
+        _ => (format!("{} = {};", annotated("r", te), e), false),
+    }
+}
+
 pub fn render(c: &Cell) -> Rendered {
     let mut top: Vec<String> = Vec::new(); // declarations before the function
     let mut params: Vec<String> = Vec::new();
     let mut locals: Vec<String> = Vec::new();
     let mut ret: Option<String> = None; // declared return type
     let construct: String;
+    #[allow(unused_assignments)]
     let mut construct_is_return = false;
     let mut construct_is_top = false;
     match c.ctx.as_str() {
@@ -183,6 +264,22 @@ pub fn render(c: &Cell) -> Rendered {
             construct = format!("\t// unknown context {other}");
         }
     }
+    let mut construct = construct;
+    if c.x != "direct" {
+        // the offending expression in an expression context (the declarations of the direct form are dropped)
+        top.retain(|l| !l.starts_with("fn callee("));
+        if let Some((e, te, atomic)) = offending_expression(c, &mut top, &mut locals) {
+            let (stmt, is_ret) = statement_for(&c.x, &e, &te, atomic, &mut top, &mut locals, &mut ret);
+            construct = format!("\t{stmt}");
+            construct_is_return = is_ret;
+        }
+    }
+    if c.y != "top" && !construct_is_top && !construct_is_return {
+        locals.extend(ty::CTX_LOCALS.iter().map(|s| s.to_string()));
+        construct = format!("\t{}", ty::in_stmt_ctx(&c.y, &construct, "c"));
+    }
+    let mut seen = std::collections::HashSet::new();
+    locals.retain(|l| seen.insert(l.clone()));
     let mut lines: Vec<String> = ty::PRELUDE.lines().map(|s| s.to_string()).collect();
     lines.extend(top);
     let mut line = 0;
